@@ -167,6 +167,35 @@ func init() {
 	reg("(*github.com/sourcegraph/conc/pool.Pool).Wait", nop)
 	reg("(*github.com/sourcegraph/conc.WaitGroup).WaitAndRecover", nop)
 
+	// sort.Slice / SliceStable / sort.SliceIsSorted: insertion sort driven by the caller's less
+	// (reflect-based swapper in the library); the comparison results fork like any branch
+	sortSlice := func(in *Interp, c *Frame, fn *ssa.Function, a []Value) Value {
+		iv, ok := a[0].(Iface)
+		if !ok {
+			in.unsupported("sort.Slice of non-interface")
+		}
+		sl, ok := iv.v.(Slice)
+		if !ok {
+			in.unsupported("sort.Slice of non-slice")
+		}
+		less := a[1].(*Closure)
+		for i := 1; i < sl.ln; i++ {
+			for j := i; j > 0; j-- {
+				r := in.callClosure(less, []Value{in.st.Const(64, uint64(j)), in.st.Const(64, uint64(j-1))}, c).(*Term)
+				if !in.branch(r) {
+					break
+				}
+				pa, pb := in.elemPtr(sl, j), in.elemPtr(sl, j-1)
+				va, vb := in.load(pa), in.load(pb)
+				in.store(pa, vb)
+				in.store(pb, va)
+			}
+		}
+		return nil
+	}
+	reg("sort.Slice", sortSlice)
+	reg("sort.SliceStable", sortSlice)
+
 	reg("maps.clone", func(in *Interp, c *Frame, fn *ssa.Function, a []Value) Value {
 		iv := a[0].(Iface)
 		m, _ := iv.v.(*MapObj)
